@@ -326,7 +326,7 @@ def gen_kcenters(rng, nmax=12):
     n = c["n"]
     c["kind"] = "kcenters"
     mode = rng.choice(["k", "k", "r", "both"])
-    c["nclu"] = rng.randint(1, n) if mode in ("k", "both") else None
+    c["nclu"] = rng.randint(1, n + 2) if mode in ("k", "both") else None     # more clusters than frames is legal
     c["cutoff"] = None
     if mode in ("r", "both"):
         c["cutoff"] = rng.choice(([0] if mode == "both" else []) + [1, 2, 3, 1.5, 2.5, 5])
@@ -388,6 +388,24 @@ def gen_kmedoids(rng, nmax=11):
     if rng.random() < 0.35:
         c["proposals"] = [rng.randrange(n) for _ in range(k)]
     c["form"] = "func"
+    return c
+
+
+def gen_multiscale(rng):
+    """1-D integer data with very different length scales: a tight far-away group and a wide spread,
+    so that a worse medoid for the tight group changes the mean cost by a relatively tiny amount."""
+    far = rng.choice([5000, 20000, 100000])
+    tight = sorted({far + d for d in rng.sample(range(0, 6), rng.randint(2, 4))})
+    wide = sorted({rng.randrange(0, 40) * 100 for _ in range(rng.randint(3, 7))})
+    pts = wide + tight
+    rng.shuffle(pts)
+    n = len(pts)
+    c = {"metric": rng.choice(["euclidean", "manhattan"]), "X": [[p] for p in pts], "dtype": "float64", "n": n,
+         "kind": "kmedoids", "n_iters": rng.randint(1, 3), "seed": rng.randrange(10 ** 6), "form": "func"}
+    k = rng.randint(2, min(4, n))
+    # start from a consistent state whose tight-group medoid is the best one; propose worse ones
+    c["start"] = {"how": "centers", "k": k, "ctrs": rng.sample(range(n), k)}
+    c["proposals"] = [rng.randrange(n) for _ in range(k)] if rng.random() < 0.7 else None
     return c
 
 
@@ -488,6 +506,10 @@ def common_tags(c, out):
         t.append("explicit-proposals" if c.get("proposals") is not None else "random-proposals")
     if "err" in out:
         t.append("impl-error")
+    if c["kind"] == "kmedoids" and c["metric"] != "matrix" and max(v[0] for v in c["X"]) >= 5000:
+        t.append("multi-scale-data")
+    if c["kind"] == "kcenters" and c.get("nclu") is not None and c["nclu"] > c["n"]:
+        t.append("more-clusters-than-frames")
     if c.get("explicit_none"):
         t.append("explicit-none-args")
     return t
